@@ -2,7 +2,7 @@
 import ast
 
 from sa.helpers import (mkflow, spec, code, one, calls, bind_call, param_env,
-                        fmt, atom_of, unparse, walk_no_nested)
+                        fmt, atom_of, unparse, walk_no_nested, guard_is)
 from sa.index import AnalysisError, ClassInfo
 from sa.algebra import RF, dotted
 from sa.api import api_obligations
@@ -248,41 +248,70 @@ def spectrum_dicts(ix, R):
         fx = fl.tab.atom('idx', (pe['M'], fl.tab.const(1)))
         tau = fl.tab.atom('idx', (pe['M'], fl.tab.const(2)))
         b = dict(pe, wn=wn, fx=fx, tau=tau)
-        st = {}
-        for e in fl.of('store'):
-            ta = atom_of(fl, e.target)
-            if ta is not None and ta.head == 'idx':
-                ka = atom_of(fl, ta.args[1])
-                if ka is not None and ka.head == 'const':
-                    st[ka.args[0].strip("'")] = e
+        from sa.helpers import dict_facts
+        facts = dict_facts(fl)
         want = {'native_wngrid': 'wn', 'native_wlgrid': '10000/wn', 'native_spectrum': 'fx',
                 'binned_spectrum': 'self.bindown(wn, fx)[1]', 'native_wnwidth': 'compute_bin_edges(wn)[-1]',
                 'native_wlwidth': 'compute_bin_edges(10000/wn)[-1]', 'binned_tau': 'self.bindown(wn, tau)[1]',
                 'native_tau': 'tau'}
         why = []
+        st = {}
         for k, w in want.items():
-            if k not in st or not fl.tab.equal(st[k].value, spec(fl, w, b)):
-                why.append('%s = %s' % (k, fmt(fl, st[k].value) if k in st else None))
+            got = facts.get(k, [])
+            if len(got) != 1 or not fl.tab.equal(got[0][0], spec(fl, w, b)):
+                why.append('%s = %s' % (k, [fmt(fl, g_[0]) for g_ in got] or None))
+            if len(got) == 1:
+                st[k] = got[0][1]
         R.check('3.base', 'ALG', site,
                 'native_wlgrid = 10000/wngrid; binned_spectrum = bindown(wngrid, flux)[1]; widths from mid-point edges; '
                 'taus from the model output',
                 not why, key='; '.join(why), detail='; '.join(why), loc=f.loc())
+        # the sizes are an IntEnum: a chain of `size > X` tests is the test against the largest X
+        levels = {}
+        for m_ in ix.modules.values():
+            c_ = m_.classes.get('OutputSize')
+            if c_ is not None:
+                for n_ in c_.node.body:
+                    if isinstance(n_, ast.Assign) and len(n_.targets) == 1 and isinstance(n_.targets[0], ast.Name) and \
+                            isinstance(n_.value, ast.Constant) and isinstance(n_.value.value, int):
+                        levels[n_.targets[0].id] = n_.value.value
+        if not {'light', 'lighter', 'heavy'} <= set(levels):
+            raise AnalysisError('OutputSize levels not found')
         why = []
-        lighter = spec(fl, 'OutputSize.lighter < size', pe)
-        light = spec(fl, 'OutputSize.light < size', pe)
-        for k, gs in (('binned_tau', [lighter]), ('native_tau', [lighter, light])):
+        und = []
+
+        def threshold(e):
+            """largest level L such that the entry is written only if size > L (None: written unconditionally)"""
+            th = None
+            for g in e.guards:
+                hit = None
+                for nm_, v_ in levels.items():
+                    if guard_is(fl, g, spec(fl, 'OutputSize.%s < size' % nm_, pe), True):
+                        hit = v_
+                    elif guard_is(fl, g, spec(fl, 'OutputSize.%s <= size' % nm_, pe), True):
+                        hit = v_ - 1
+                if hit is None:
+                    und.append(g.text())
+                    continue
+                th = hit if th is None else max(th, hit)
+            return th
+        for k, lv in (('binned_tau', 'lighter'), ('native_tau', 'light')):
             e = st.get(k)
             if e is None:
                 continue
-            got = [g.rf for g in e.guards if g.positive]
-            if len(got) != len(gs) or not all(fl.tab.equal(a, b_) for a, b_ in zip(got, gs)):
+            th = threshold(e)
+            if th != levels[lv]:
                 why.append('%s under %s' % (k, [g.text() for g in e.guards]))
         for k in ('native_wngrid', 'native_spectrum', 'binned_spectrum'):
             if k in st and st[k].guards:
                 why.append('%s is conditional' % k)
-        R.check('3.base.size', 'GUARD', site,
-                'binned_tau is stored iff size > lighter; native_tau iff size > light; spectra always',
-                not why, key='; '.join(why), detail='; '.join(why), loc=f.loc())
+        if und and not why:
+            R.error('3.base.size', 'GUARD', site, 'which entries are written for which output size',
+                    'a condition this rule cannot place on the OutputSize scale: %s' % und, loc=f.loc())
+        else:
+            R.check('3.base.size', 'GUARD', site,
+                    'binned_tau is stored iff size > lighter; native_tau iff size > light; spectra always',
+                    not why, key='; '.join(why), detail='; '.join(why), loc=f.loc())
     for site, grid, width in ((FB + '::FluxBinner.generate_spectrum_output', 'self._wngrid', 'self._wngrid_width'),
                               (SB + '::SimpleBinner.generate_spectrum_output', 'self._wngrid', 'self._wn_width')):
         with R.guard('3.binned', 'SIB', site, 'binned dictionary'):
